@@ -15,6 +15,8 @@ from nacl.bindings import (crypto_scalarmult, crypto_sign, crypto_sign_ed25519_p
                            crypto_sign_ed25519_sk_to_curve25519, crypto_sign_seed_keypair)
 from nacl.signing import VerifyKey
 
+from harness.translate import adnlsrc, arith_adnl
+
 MAGIC_AES = bytes.fromhex('d4adbc2d')
 MAGIC_KEY = bytes.fromhex('c6b41348')
 
@@ -29,19 +31,37 @@ SPEC = dict(
              'The cryptographic primitives (X25519, Ed25519<->Curve25519 maps, AES-256-CTR, SHA-256, Ed25519 sign/verify, HMAC-SHA512, PBKDF2) are '
              'NOT verified: they are parameters and their algebraic laws (DH commutativity, CTR involution + length, signature correctness, digest '
              'lengths) are hypotheses, shown satisfiable by toy primitives (CTR involution is alternatively derived from "output = input xor key stream"). Rejection of altered message/key/signature (unforgeability) is only '
-             'tested. The real library is exercised with both real peers and against an independent libsodium/pycryptodome transcription.',
-        level_note='Trusted: Lean kernel (propext, Classical.choice, Quot.sound); Model/Adnl.lean as a hand transcription of ciphers.py / signature.py / '
-                   'keys.py (tied by sampled correspondence on real intermediate values); the stated laws of the primitives (tested on every case, '
-                   'not proved); PyNaCl/libsodium, pycryptodomex, x25519, hashlib, hmac; the Python harness. Sampled only: all rejection cases of '
-                   'signatures, validity of real generated mnemonics (10 quick / 50 thorough), float arithmetic inside get_secure_random_number.',
-        technique='Lean 4 proof over a hand model with primitives as parameters (laws as hypotheses) + differential correspondence + direct property oracle',
+             'tested. The real library is exercised with both real peers and against an independent libsodium/pycryptodome transcription.'
+             ' SOURCE TIE: the glue code itself is REGENERATED from the Python source on every run (Generated/AdnlSrc.lean): Client / Server / '
+             'AdnlChannel.__init__ (key conversions, shared key, the three-way id comparison, [::-1]), get_key_aes_id, '
+             'create_aes_ctr_sipher_from_key_n_data + create_aes_ctr_cipher (slice bounds, 32-byte guard, AES.new argument check), encrypt / decrypt '
+             '(checksum over the plaintext, key id || checksum || body), get_signature / Client.sign, get_key_id, verify_sign, sign_message, '
+             'is_basic_seed, mnemonic_to_entropy, mnemonic_is_valid, mnemonic_to_seed / _private_key / _wallet_key - and Lean proves for ALL inputs and '
+             'ALL instantiations of the primitives that each regenerated function equals its hand model (Proofs/SrcAdnl.lean); c20_src_symmetric, '
+             'c20_src_channel_keys, c20_src_cipher, c20_src_sign, c20_src_mnemonic restate the property theorems over the regenerated functions. '
+             'Still hand model + recorded-stream correspondence: get_secure_random_number (float arithmetic, while True) and the loops of mnemonic_new.',
+        level_note='Trusted: Lean kernel (propext, Classical.choice, Quot.sound); the translator harness/translate/pyprims.py (+ pyobj / pybytes / '
+                   'pyarith) with the declared interface of adnlsrc.py - which library call is which primitive of Prims, a key object = the bytes it '
+                   'encodes to, a cipher object = (key, counter), AES.new raises unless key 16/24/32 and counter 16 bytes, `<` on bytes = Py.bytesLt - '
+                   'validated on every change by running the source under CPython with computable toy primitives against Lean evaluation of the '
+                   'regenerated definitions (254 boundary cases) and against the real nacl / pycryptodomex objects; Model/Adnl.lean only for '
+                   'get_secure_random_number / mnemonic_new (sampled correspondence on recorded os.urandom streams); the stated laws of the primitives '
+                   '(tested on every case, not proved); PyNaCl/libsodium, pycryptodomex, x25519, hashlib, hmac; the Python harness. Sampled only: all '
+                   'rejection cases of signatures, validity of real generated mnemonics (10 quick / 50 thorough), float arithmetic inside '
+                   'get_secure_random_number.',
+        technique='Lean 4 proof over a model with primitives as parameters (laws as hypotheses); glue code regenerated from source by a translator and '
+                  'proved equal to the model for all inputs + differential correspondence + direct property oracle',
     ),
+    translators=[('ciphers.py + signature.py + keys.py glue->Generated/AdnlSrc.lean', adnlsrc.regenerate),
+                 ('keys.py generator decision lines->Generated/MnemonicNew.lean', arith_adnl.regenerator('MnemonicNew'))],
+    lean_targets=['TonVerif.Proofs.SrcAdnl'],
     design_ref='DESIGN.md §6 C20',
     rule='channel case = (seed a, seed b, id variant: natural/swapped/equal/prefix/empty, plaintext length 0..4096 incl. block boundaries), both directions; '
          'self channel a=b; cipher-guard case = (key length, data length) around 16/20/32; sign case = (seed, message, one alteration of message/key/signature); '
          'mnemonic case = one mnemonic_new() output (validated, derived twice, compared with hashlib/libsodium) or one recorded os.urandom stream; '
          'distinct = distinct inputs; non-trivial = plaintext/message non-empty or structural case',
-    trusted_base=['Model/Adnl.lean mirrors AdnlChannel / create_aes_ctr_sipher_from_key_n_data / sign_message / keys.py by hand',
+    trusted_base=['Generated/AdnlSrc.lean is regenerated from ciphers.py / signature.py / keys.py by pyprims.py under the declared interface of adnlsrc.py '
+                  '(validated against CPython with toy primitives); Model/Adnl.lean mirrors get_secure_random_number / mnemonic_new by hand',
                   'ChannelLaws, SignLaw (Proofs/Adnl.lean) are HYPOTHESES about the primitives; tested, not proved',
                   'libsodium (PyNaCl), pycryptodomex AES-CTR, x25519, hashlib, hmac'],
     assumptions=['X25519 is commutative; Ed25519->Curve25519 conversion commutes with taking the public key; AES-CTR is a length-preserving involution',
@@ -402,6 +422,47 @@ def check_generated(ctx, ws, derive=True):
             ctx.fail('derive-pub:', 'private_key_to_public_key(secret) != public', inp)
 
 
+MAX_DRAWS = 24 * 8000       # a generator that has not returned after 8000 candidates (probability (255/256)^8000 < 1e-13) is stuck
+
+
+class GeneratorStuck(Exception):
+    pass
+
+
+class GuardedOs:
+    """the real `os` module inside keys.py with a bound on the number of urandom calls of ONE library call (a `while True` that never
+    finds a valid candidate must become a reported failure, not a hanging check)"""
+
+    def __init__(self, real, limit=MAX_DRAWS):
+        self.real, self.limit, self.draws = real, limit, 0
+
+    def urandom(self, n):
+        self.draws += 1
+        if self.draws > self.limit:
+            raise GeneratorStuck()
+        return self.real.urandom(n)
+
+    def __getattr__(self, name):
+        return getattr(self.real, name)
+
+
+def guarded_mnemonic_new(ctx, K, *args):
+    """-> (words | None, stuck)"""
+    if not hasattr(K, 'os'):
+        return call(K.mnemonic_new, *args), False
+    real = K.os
+    g = GuardedOs(real)
+    K.os = g
+    try:
+        return K.mnemonic_new(*args), False
+    except GeneratorStuck:
+        return None, True
+    except Exception:
+        return None, False
+    finally:
+        K.os = real
+
+
 class FakeOs:
     """stands in for the `os` module inside keys.py while a generator run is recorded."""
 
@@ -411,6 +472,8 @@ class FakeOs:
         self.first = first
 
     def urandom(self, n):
+        if len(self.log) >= MAX_DRAWS:
+            raise GeneratorStuck()
         r = self.rng.randbytes(n)
         if self.first is not None and len(self.first) <= n:        # a chosen first draw (boundary values), random afterwards
             r = self.first + r[len(self.first):]
@@ -437,7 +500,11 @@ def check_generator_stream(ctx, seed_bytes):
     inp = {'kind': 'generator', 'stream_seed': seed_bytes.hex()}
     ctx.count('generator-streams')
     if ws is None:
-        ctx.fail('generator-raised:', 'mnemonic_new raised', inp)
+        if len(fake.log) >= MAX_DRAWS:
+            ctx.fail('generator-stuck:', f'mnemonic_new() did not return after {MAX_DRAWS} os.urandom draws ({MAX_DRAWS // 24} candidates) of a seeded '
+                     'random stream: it never finds a valid candidate', inp, 'still running', '24 words after ~256 candidates')
+        else:
+            ctx.fail('generator-raised:', 'mnemonic_new raised', inp)
         return
     check_generated(ctx, ws, derive=False)
     # independent reading of the stream: 24 draws per candidate, index = first two bytes big endian & 2047
@@ -499,7 +566,11 @@ def mnemonic_cases(ctx):
     rng = ctx.rng
     gen = []
     for _ in range(ctx.n(10, 50)):
-        ws = call(K.mnemonic_new)
+        ws, stuck = guarded_mnemonic_new(ctx, K)
+        if stuck:
+            ctx.fail('generator-stuck:', f'mnemonic_new() did not return after {MAX_DRAWS} os.urandom draws ({MAX_DRAWS // 24} candidates): it never '
+                     'finds a valid candidate', {'kind': 'generator-live'}, 'still running', '24 words after ~256 candidates')
+            return
         if ws is None:
             ctx.fail('generator-raised:', 'mnemonic_new raised', {'kind': 'generator-live'})
             continue
@@ -585,7 +656,77 @@ def check_colliding(ctx, pairs):
             ctx.fail('derive-history:distinct', 'two different valid mnemonics derive the same wallet key', {'kind': 'colliding-mnemonics', 'pairs': [[l1, l2]]})
 
 
+def src_search(ctx):
+    """a `c20_src_*` obligation (or the build of Proofs/SrcAdnl.lean) broke: Lean evaluates the regenerated glue code against the hand
+    model on the boundary grid (toy primitives); every differing point is replayed through the oracle of its kind on REAL primitives:
+    the ids / plaintext length of a differing channel case, the key / checksum lengths of a differing cipher case, a message of that
+    length for the signing helpers, a word list of that length (one whose entropy IS a basic seed) for the validity test."""
+    from pytoniq_core.crypto import keys as K
+    rng = ctx.rng
+    pts = adnlsrc.diff_points(ctx)
+    seen = set()
+    for case, names in pts:
+        kind = case[0]
+        if kind == 'chan':
+            _, sa, sb, ida, idb, m, sm = case
+            key = ('chan', ida, idb, len(m), len(sm) if names == ['decrypt'] else 32)
+            if key in seen:
+                continue
+            seen.add(key)
+            a, b = (sa if len(sa) == 32 else rng.randbytes(32)), (sb if len(sb) == 32 else rng.randbytes(32))
+            if names == ['decrypt'] and len(sm) != 32:
+                check_cipher(ctx, rng.randbytes(32), rng.randbytes(len(sm)))
+            else:
+                check_channel(ctx, a, b, ida, idb, [m, b'', rng.randbytes(33)], 'src-diff')
+                check_sign(ctx, a, m, rng.randbytes(32))
+        elif kind == 'cipher':
+            key = ('cipher', len(case[1]), len(case[2]))
+            if key not in seen:
+                seen.add(key)
+                check_cipher(ctx, rng.randbytes(len(case[1])), rng.randbytes(len(case[2])))
+        elif kind in ('sign', 'verify'):
+            m = case[1] if kind == 'sign' else case[2]
+            key = ('sign', len(m))
+            if key not in seen:
+                seen.add(key)
+                check_sign(ctx, rng.randbytes(32), rng.randbytes(len(m)), rng.randbytes(32))
+        elif kind == 'mn':
+            n = len(case[1])
+            key = ('mn', n, tuple(names))
+            if key in seen or len([k for k in seen if k[0] == 'mn']) > 12:
+                continue
+            seen.add(key)
+            for want_basic in (True, False):
+                for _ in range(20000):
+                    ws = [rng.choice(K.words) for _ in range(n)]
+                    if (ref_basic_output(ws)[0] == 0) == want_basic:
+                        check_validity(ctx, ws, 'src-diff')
+                        if n == 24 and want_basic:
+                            check_generated(ctx, ws)
+                        break
+        if len(ctx.failures) >= 8:
+            break
+    lines = arith_adnl.search_points(ctx, ['MnemonicNew'])
+    if any(k.startswith('rn') for k in lines):
+        random_cases(ctx)
+    if any(k.startswith('mn') for k in lines) and not ctx.failures:
+        for _ in range(4):
+            check_generator_stream(ctx, rng.randbytes(8))
+            if ctx.failures:
+                break
+        if not ctx.failures:
+            ws, stuck = guarded_mnemonic_new(ctx, K)
+            if stuck:
+                ctx.fail('generator-stuck:', f'mnemonic_new() did not return after {MAX_DRAWS} os.urandom draws', {'kind': 'generator-live'})
+            elif ws is not None:
+                check_generated(ctx, ws)
+
+
 def run(ctx):
+    if ctx.search:
+        src_search(ctx)
+        if ctx.failures:              # the differing points already gave concrete failing inputs: report them
+            return
     channel_cases(ctx)
     cipher_cases(ctx)
     sign_cases(ctx)
@@ -615,3 +756,10 @@ def replay(ctx, payload):
         check_random_number(ctx, int(inp['lo']), int(inp['hi']), bytes.fromhex(inp['stream_seed']), bytes.fromhex(inp['first']) if inp.get('first') else None)
     elif k == 'generator':
         check_generator_stream(ctx, bytes.fromhex(inp['stream_seed']))
+    elif k == 'generator-live':
+        from pytoniq_core.crypto import keys as K
+        ws, stuck = guarded_mnemonic_new(ctx, K)
+        if stuck:
+            ctx.fail('generator-stuck:', f'mnemonic_new() did not return after {MAX_DRAWS} os.urandom draws', {'kind': 'generator-live'})
+        elif ws is not None:
+            check_generated(ctx, ws)
